@@ -102,6 +102,12 @@ def case_roundtrip(case):
             try:
                 with warnings.catch_warnings():
                     warnings.simplefilter("ignore")
+                    if cycle == 2:
+                        # history of the path: a longer table (other values, same labels last) was saved there before
+                        stale = [dict(s_, value=enc(7.25)) if s_.get("expression") is None else s_ for s_ in case["specs"]]
+                        extra = [{k: enc(v) for k, v in param_spec(f"zz.stale{i}", 10.0 + i).items()} for i in (1, 2, 3)]
+                        save_parameters(build(extra + stale), f, **kw)
+                        kw["allow_overwrite"] = True
                     save_parameters(cur, f, **kw)
                     lk = {"sep": kw["sep"]} if "sep" in kw else {}
                     loaded = load_parameters(f, **lk)
